@@ -274,6 +274,14 @@ def run(F, chk):
             for c in [b.get("owner")] + F.ancestors(b.get("owner")):
                 if (c, b["name"]) in counter_of:
                     bounds.append(("%s.%s" % (obj, counter_of[(c, b["name"])])) if obj else counter_of[(c, b["name"])])
+            # a bound hoisted into a local that is never reassigned (`const uint32_t n = data->nBones;`) stands for its initialiser
+            assigned_ = {y["l"]["id"] for y in walk(fn["body"]) if y["k"] == "Assign" and is_node(y["l"]) and y["l"]["k"] == "Ref"} | \
+                        {y["e"]["id"] for y in walk(fn["body"]) if y["k"] == "Unary" and y["op"] in ("++", "--") and is_node(y["e"]) and y["e"]["k"] == "Ref"}
+            for d_ in walk(fn["body"]):
+                if d_["k"] == "Decl":
+                    for v_ in d_.get("vars", []):
+                        if v_["id"] not in assigned_ and is_node(v_.get("init")) and show(peel(v_["init"])) in bounds:
+                            bounds.append(v_["name"])
             ok = all(_index_bounded(st, i["name"], bounds) for st in sts)
             chk.instance(R5, ok=ok, sample={"fn": fn["name"], "container": show(b), "index": i["name"], "accepted_bounds": bounds})
             if not ok:
@@ -473,6 +481,27 @@ def _loop_bounded(loop):
                     incs.add(x["e"]["id"])
                 if x["k"] == "Assign" and x["op"] == "+=" and is_node(x["l"]) and x["l"]["k"] == "Ref":
                     incs.add(x["l"]["id"])
+    decs = set()
+    for part in (loop.get("inc"), loop.get("body")):
+        if is_node(part):
+            for x in walk(part):
+                if x["k"] == "Unary" and x["op"] in ("--",) and is_node(x["e"]) and x["e"]["k"] == "Ref":
+                    decs.add(x["e"]["id"])
+                if x["k"] == "Assign" and x["op"] == "-=" and is_node(x["l"]) and x["l"]["k"] == "Ref":
+                    decs.add(x["l"]["id"])
+    for c in conj:
+        # a count-down budget: `remaining != 0` / `remaining > 0` / `remaining` with remaining decremented in the loop
+        cc = peel(c) if is_node(c) else c
+        if is_node(cc) and cc["k"] == "Ref" and cc.get("id") in decs and cc.get("id") not in incs:
+            return True
+        if is_node(c) and c["k"] == "Binary" and c["op"] in ("!=", ">"):
+            l, r = peel(c["l"]), peel(c["r"])
+            if is_node(l) and l["k"] == "Ref" and l.get("id") in decs and l.get("id") not in incs and is_node(r) and r.get("val") == 0:
+                return True
+        if is_node(c) and c["k"] == "Binary" and c["op"] in ("!=", "<"):
+            l, r = peel(c["l"]), peel(c["r"])
+            if is_node(r) and r["k"] == "Ref" and r.get("id") in decs and r.get("id") not in incs and is_node(l) and l.get("val") == 0:
+                return True
     for c in conj:
         if is_node(c) and c["k"] == "Binary" and c["op"] in ("<", "<=", "!="):
             l = peel(c["l"])
